@@ -90,6 +90,7 @@ def w_ortho_trunc(ctx, rng, idx):
     t = fresh()
     call('TT.ortho', lambda: t.ortho(threshold=thr), prop=P)
     call('TT.__init__', lambda: tt.TT([c.copy() for c in cores], max_rank=mr), prop=P)
+    call('TT.__init__', lambda: tt.TT([c.copy() for c in cores], max_rank=mrl), prop=P)
     call('TT.__init__', lambda: tt.TT([c.copy() for c in cores], threshold=thr), prop=P)
     # one-sided truncating sweeps after the opposite side was orthonormalised (precondition measured by the contract)
     t = fresh()
